@@ -72,6 +72,7 @@ BLOCKING_PRIMITIVES = {
     'recv_into': 'socket.recv_into blocks until the peer sends',
     'wrap_socket': 'TLS handshake reads from the peer',
     'communicate': 'Popen.communicate waits for the child process',
+    'unwrap': 'SSLSocket.unwrap waits for the peer\'s close_notify',
     'getresponse': 'HTTPConnection.getresponse reads the peer response',
     'putrequest': 'HTTPConnection.putrequest connects to the peer (auto_open)',
     'endheaders': 'HTTPConnection.endheaders connects/sends to the peer',
